@@ -398,9 +398,51 @@ fn heavy_hitters(run: &Run, tape: &Tape) {
     });
 }
 
+/// Wide parameters: every prefix of a level as candidate (thousands of candidates, so output shares, verifier
+/// states and aggregate shares are tens of kilobytes — beyond any 16-bit length), through all wire encodings,
+/// two reports, exact counts.
+fn wide(run: &Run, bits: usize, level: usize, tape: &Tape, tname: &str) {
+    let vdaf = Pop::new(bits);
+    let n = 1usize << (level + 1);
+    let set: Vec<Vec<bool>> = (0..n as u64).map(|v| bits_of(v, level + 1)).collect();
+    let ap = param(&set);
+    let inputs = [bits_of(0x2A5F_u64 & ((1u64 << bits) - 1), bits), bits_of((1u64 << bits) - 1, bits)];
+    let key = format!("poplar1/wide/bits={bits}/level={level}");
+    let case = || json!({"bits": bits, "level": level, "candidates": n, "tape": tname});
+    let mut outs = vec![];
+    for (k, input) in inputs.iter().enumerate() {
+        let rep = match shard(&vdaf, input, tape, 3000 + k as u64) {
+            Ok(r) => r,
+            Err(e) => {
+                run.fail(&format!("{key}/shard"), &format!("Poplar1(bits={bits}): {e}"), case());
+                return;
+            }
+        };
+        let vk: [u8; 32] = tape.array(3100);
+        run.count("evaluations", 1);
+        match verify(&vdaf, &rep, &vk, &ap) {
+            Ok(o) => outs.push(o),
+            Err(f) => {
+                run.fail(&format!("{key}/rejected"), &format!("Poplar1(bits={bits}): honest report rejected at level {level} with all {n} prefixes of that level as candidates (every message and state through its wire encoding): {:?}", f), case());
+                return;
+            }
+        }
+    }
+    match unshard_counts(&vdaf, &ap, &outs) {
+        Ok(got) => {
+            let want: Vec<u64> = set.iter().map(|p| inputs.iter().filter(|i| i[..=level] == p[..]).count() as u64).collect();
+            if got != want {
+                run.fail(&format!("{key}/count"), &format!("Poplar1(bits={bits}): wrong counts with all {n} prefixes of level {level} as candidates"), case());
+            }
+        }
+        Err(e) => run.fail(&format!("{key}/unshard"), &format!("Poplar1(bits={bits}), all {n} prefixes of level {level}: {e}"), case()),
+    }
+    run.distinct(fnv(format!("wide/{bits}/{level}").as_bytes()));
+}
+
 fn main() {
     let run = Run::from_args("C03", Level::Exploration);
-    run.rule("bits 1..5: all inputs x every level x every non-empty sorted prefix set (bits<=3; for 4,5 sets of size <=2 plus the full set) x tapes, each verified by both aggregators through all wire encodings; batches = all multisets of size 2 (thorough: 3) + the full set; admissible parameter histories enumerated with is_agg_param_valid; deep levels for bit lengths up to 65536 incl. levels >= 21846; heavy hitters for bits=3, all batches of <=3 strings, thresholds 1..3 vs exact counting. distinct = distinct (bits, tape, input) reports / deep (bits, level) cases");
+    run.rule("bits 1..5: all inputs x every level x every non-empty sorted prefix set (bits<=3; for 4,5 sets of size <=2 plus the full set) x tapes, each verified by both aggregators through all wire encodings; batches = all multisets of size 2 (thorough: 3) + the full set; admissible parameter histories enumerated with is_agg_param_valid; deep levels for bit lengths up to 65536 incl. levels >= 21846; wide parameters (all 4096 leaves of 12-bit inputs, all 8192 nodes of level 12 of 14-bit inputs; thorough more) through all encodings; heavy hitters for bits=3, all batches of <=3 strings, thresholds 1..3 vs exact counting. distinct = distinct (bits, tape, input) reports / deep (bits, level) cases");
     run.assume("sharding randomness, nonce, verify key, ctx from a fixed tape alphabet");
     let q = run.quick();
     let tapes = tape_alphabet(run.seed, if q { 1 } else { 6 });
@@ -428,6 +470,9 @@ fn main() {
         deep(&run, bits, &levels, tape, tname);
     });
     eprintln!("[{:.1}s] deep", run.elapsed());
+    let wides: Vec<(usize, usize)> = if q { vec![(12, 11), (14, 12)] } else { vec![(12, 11), (12, 10), (14, 12), (14, 13), (16, 13)] };
+    par::for_each(wides.len() as u64, |i| wide(&run, wides[i as usize].0, wides[i as usize].1, &tapes[2].1, &tapes[2].0));
+    eprintln!("[{:.1}s] wide", run.elapsed());
     run.sample(json!({"deep": "bits=65536", "levels": [0, 1, 21845, 21846, 32768, 65534, 65535], "prefixes": "on-path + sibling"}));
     run.exhaustive(true);
     run.note("exhaustive_scope", json!("inputs and aggregation parameters for bits<=3 (all), bits 4..5 (sets of size <=2 + full); tapes are an alphabet; deep levels are a list"));
